@@ -48,7 +48,7 @@ REAL = ['asyncssh forward.py, listener.py, socks.py, connection/channel '
         'forwarding paths of both endpoints']
 STUB = ['event loop + clock', 'TCP/UNIX sockets and listeners', 'DNS',
         'executor', 'origin and destination applications']
-PROBES = ['listener_closed_twice', 'duplicate_listen_request', 'dynamic_listen_ports', 'mode_remote_unix', 'mode_local', 'mode_socks', 'mode_remote', 'mode_local_unix',
+PROBES = ['connected_behind_the_grant', 'listener_closed_twice', 'duplicate_listen_request', 'dynamic_listen_ports', 'mode_remote_unix', 'mode_local', 'mode_socks', 'mode_remote', 'mode_local_unix',
           'early_data', 'half_close', 'origin_abort', 'dest_close_first',
           'slow_consumer', 'refused_by_policy', 'ssh_cut',
           'origin_gone_during_open', 'multi_conn', 'listen_refused']
@@ -122,6 +122,7 @@ def gen_plan(rng):
         'cut': cut,
         'dyn_ports': mode == 'remote' and rng.chance(40),
         'dup_listen': mode == 'remote_unix' and rng.chance(40),
+        'eager': mode == 'remote' and rng.chance(30),
         'lclose2': rng.choice([0, 0, 0, 1, 5, 30])
         if mode in ('remote', 'remote_unix') else 0,
     }
@@ -487,6 +488,76 @@ def run_plan(plan, sched_seed=None, sched_replay=None):
         res['conn'] = conn
         listeners = {}
 
+        async def start_origin(ci, c, eager=False):
+            for _ in range(0 if eager else c['delay']):
+                await sim.pause('origin-delay')
+
+            didx = c['dest']
+            pre = None
+
+            if mode == 'socks':
+                pre = Socks(c['socks_ver'], DESTS[didx][0], DESTS[didx][1])
+
+            prog = list(c['origin'])
+
+            if c['early_gone']:
+                # leave while the channel open is (probably) still in flight
+                prog = [['w', 10], [sim_choice(ci)]]
+                sim.probes['origin_gone_during_open'] += 1
+
+            e = End(world, 'O%d' % ci, prog, 'o2t.%d' % ci, pre)
+            e.didx = didx
+            e.ci = ci
+            origins.append(e)
+
+            try:
+                if mode == 'local':
+                    await loop.create_connection(lambda: e, '127.0.0.1',
+                                                 7000 + didx)
+                elif mode == 'socks':
+                    await loop.create_connection(lambda: e, '127.0.0.1',
+                                                 1080)
+                elif mode == 'local_unix':
+                    await loop.create_unix_connection(
+                        lambda: e, '/listen%d.sock' % didx)
+                elif mode == 'remote_unix':
+                    await loop.create_unix_connection(
+                        lambda: e, '/rlisten%d.sock' % didx)
+                elif eager:
+                    # already knocking while the listener is being set up:
+                    # the first connection is there as soon as the server
+                    # listens, before the client knows it was granted
+                    for _ in range(400):
+                        try:
+                            await loop.create_connection(
+                                lambda: e, '127.0.0.1', 8000 + didx)
+                            sim.probes['connected_behind_the_grant'] += 1
+                            break
+                        except ConnectionRefusedError:
+                            await sim.pause('eager-origin')
+                    else:
+                        raise ConnectionRefusedError('never listening')
+                else:
+                    await loop.create_connection(
+                        lambda: e, '127.0.0.1',
+                        listeners[didx].get_port() if plan.get('dyn_ports')
+                        and didx in listeners else 8000 + didx)
+            except OSError as exc:
+                e.connect_error = exc
+                e.lost_seen = True
+
+        def sim_choice(ci):
+            return 'abort' if ci % 2 else 'close'
+
+
+        eager_started = set()
+
+        if plan.get('eager') and mode == 'remote' and \
+                not plan.get('dyn_ports') and plan['conns'] and \
+                not plan['conns'][0]['early_gone']:
+            eager_started.add(0)
+            sim.track('origin0', start_origin(0, plan['conns'][0], True))
+
         try:
             if mode == 'local':
                 for i in (0, 1):
@@ -530,55 +601,9 @@ def run_plan(plan, sched_seed=None, sched_replay=None):
 
         res['listeners'] = listeners
 
-        async def start_origin(ci, c):
-            for _ in range(c['delay']):
-                await sim.pause('origin-delay')
-
-            didx = c['dest']
-            pre = None
-
-            if mode == 'socks':
-                pre = Socks(c['socks_ver'], DESTS[didx][0], DESTS[didx][1])
-
-            prog = list(c['origin'])
-
-            if c['early_gone']:
-                # leave while the channel open is (probably) still in flight
-                prog = [['w', 10], [sim_choice(ci)]]
-                sim.probes['origin_gone_during_open'] += 1
-
-            e = End(world, 'O%d' % ci, prog, 'o2t.%d' % ci, pre)
-            e.didx = didx
-            e.ci = ci
-            origins.append(e)
-
-            try:
-                if mode == 'local':
-                    await loop.create_connection(lambda: e, '127.0.0.1',
-                                                 7000 + didx)
-                elif mode == 'socks':
-                    await loop.create_connection(lambda: e, '127.0.0.1',
-                                                 1080)
-                elif mode == 'local_unix':
-                    await loop.create_unix_connection(
-                        lambda: e, '/listen%d.sock' % didx)
-                elif mode == 'remote_unix':
-                    await loop.create_unix_connection(
-                        lambda: e, '/rlisten%d.sock' % didx)
-                else:
-                    await loop.create_connection(
-                        lambda: e, '127.0.0.1',
-                        listeners[didx].get_port() if plan.get('dyn_ports')
-                        and didx in listeners else 8000 + didx)
-            except OSError as exc:
-                e.connect_error = exc
-                e.lost_seen = True
-
-        def sim_choice(ci):
-            return 'abort' if ci % 2 else 'close'
-
         for ci, c in enumerate(plan['conns']):
-            sim.track('origin%d' % ci, start_origin(ci, c))
+            if ci not in eager_started:
+                sim.track('origin%d' % ci, start_origin(ci, c))
 
         if plan.get('lclose2') and listeners.get(0) is not None:
             async def close_twice():
